@@ -203,7 +203,10 @@ def check(run):
         tab = check_reader(run, rd, (pref, letters, tl, tp))
         check_alloc(run, rd)
         second_readers(run, repo, prel, {p_: t_ for p_, t_ in tp.items() if isinstance(p_, int)} or {0: 4, 2: 5, 1: 6, 3: 7})
-        per_pkg[pkg] = (pref, letters, tl, {k: v for k, v in tp.items()}, tab)
+        # for the comparison of the two packages only what a token DOES counts: `continue` after the last effect is the same
+        # reader as an if / elif chain that falls through to nothing
+        ntab = {k: tuple(sorted((e for e in v if e != ('skip',)), key=repr)) for k, v in (tab or {}).items()}
+        per_pkg[pkg] = (pref, letters, tl, {k: v for k, v in tp.items()}, ntab)
         # polynomial / monomial printing goes through coefficient * i^p
         # scalar multiples and negation
         for q, fld in (('Pauli', 'g'), ('PauliList', 'gs')):
